@@ -224,11 +224,61 @@ def run(P, rep, tier):
                 a0 = strip(a)
                 if a0 and a0[0] == 'l' and len(a0) > 2 and a0[2] == 'OBU_SEQUENCE_HEADER':
                     users.append((f, ev))
-    rep.ob('C02.SPS', 'single-sequence-header-writer', len({f.name for f, ev in users}) == 1 and users[0][0].name == 'encode_sps_av1',
-           users[0][0].loc(users[0][1]) if users else 'Source/Lib/Encoder', 'OBU_SEQUENCE_HEADER is written by %s' % sorted({f.name for f, ev in users}))
+    wnames = sorted({f.name for f, ev in users})
+    rep.ob('C02.SPS', 'single-sequence-header-writer', len(wnames) == 1,
+           users[0][0].loc(users[0][1]) if users else 'Source/Lib/Encoder', 'OBU_SEQUENCE_HEADER is written by %s' % wnames)
+    if not users:
+        raise AnalysisBroken('no function writes OBU_SEQUENCE_HEADER')
+    W = users[0][0]
     api = P.fn('svt_av1_enc_stream_header')
-    rep.ob('C02.SPS', 'stream-header-api-uses-it', any(True for _ in api.calls('encode_sps_av1')), api.loc(), 'svt_av1_enc_stream_header calls encode_sps_av1')
-    ks = [ev for ev, n in pk.calls('encode_sps_av1')]
+    from engine.classes import Classes as _Cl
+    _C = _Cl(P)
+    wchain = [g for g in P.reachable_from([W]) if g.lib == 'Encoder' and not g.nocfg]
+    wstores = set()
+    for g in wchain:
+        for sv in g.events(('st',)):
+            lf0 = last_field(strip(sv['e'][2])) if sv['e'][0] in ('a', 'u') else None
+            if lf0 and lf0.split('.')[0] in ('EncodeContext', 'SequenceControlSet', 'EbEncHandle'):
+                wstores.add(lf0)
+
+    def _reach_w(f):
+        return W in P.reachable_from([f])
+
+    def _reads_stored(f):
+        for ev in f.events():
+            e = ev.get('e')
+            if e is not None and any(x[0] == 'm' and x[1] in wstores for x in subexprs(e)):
+                return True
+        return False
+    # the function both the API and the packetization kernel call to put a sequence header into a buffer: it runs the single
+    # serialiser, or replays bytes the serialiser stored in the session -- the latter only when the serialiser runs before the
+    # pipeline starts (not from pipeline code and not from an API call the application may make at any time)
+    INIT_API = ('svt_av1_enc_init', 'svt_av1_enc_set_parameter', 'svt_av1_enc_init_handle')
+    direct_pk = {n for ev, n in pk.calls() if n}
+    direct_api = {n for ev, n in api.calls() if n}
+    entries = []
+    for n in sorted(direct_pk & direct_api):
+        g = P.fn(n)
+        if g is None or g.nocfg or g.lib != 'Encoder':
+            continue
+        if _reach_w(g):
+            entries.append((g, 'runs'))
+        elif _reads_stored(g):
+            entries.append((g, 'replays'))
+    if not entries:
+        rep.ob('C02.SPS', 'stream-header-api-uses-it', False, api.loc(), 'svt_av1_enc_stream_header and packetization_kernel have no common callee that runs %s or replays what it stored' % W.name)
+        raise AnalysisBroken('no common sequence-header entry of the API and the packetization kernel')
+    ENTRY = entries[0][0].name
+    if entries[0][1] == 'replays':
+        bad = sorted(a.name for a in P.fns if a.lib == 'Encoder' and not a.nocfg and _reach_w(a) and
+                     (a in _C.runtime or (a.name in P.apidecls and a.name not in INIT_API)))
+        bad = [b for b in bad if b != W.name and P.fn(b) not in wchain] + ([W.name] if W in _C.runtime else [])
+        rep.ob('C02.SPS', 'stream-header-api-uses-it', not bad, api.loc(),
+               ('%s replays the bytes %s stored; %s runs only before the pipeline starts' % (ENTRY, W.name, W.name)) if not bad else
+               ('%s replays the bytes %s stored in the session, and %s is run again by %s after the pipeline has started: the stored header can change between two key frames' % (ENTRY, W.name, W.name, bad[:4])))
+    else:
+        rep.ob('C02.SPS', 'stream-header-api-uses-it', True, api.loc(), 'svt_av1_enc_stream_header and packetization_kernel both call %s, which runs %s' % (ENTRY, W.name))
+    ks = [ev for ev, n in pk.calls(ENTRY)]
     okk = False
     for ev in ks:
         conds = [pstr(c[1]) for c in pk.ctl_chain(ev) if c[0] == 'if' and c[1] is not None]
@@ -244,7 +294,7 @@ def run(P, rep, tier):
                'the frame header writer post-dominates the sequence header writer (header first, then frame)')
     # API and stream pass the instance's sequence control set
     for f, label in ((api, 'api'), (pk, 'stream')):
-        for ev, n in f.calls('encode_sps_av1'):
+        for ev, n in f.calls(ENTRY):
             a = strip(ev['e'][2][1])
             rep.ob('C02.SPS', '%s-passes-scs' % label, a is not None and a[0] == 'v', f.loc(ev), 'sequence control set argument: %s' % pstr(a))
     rep.floor('C02.SPS', 5)
@@ -256,8 +306,11 @@ def run(P, rep, tier):
     # every write, same value each time) and member-to-same-member copies between sequence control sets.
     from engine.classes import Classes
     C = Classes(P)
-    sps = P.fn('encode_sps_av1')
-    chain = [g for g in P.reachable_from([sps]) if g.lib == 'Encoder' and not g.nocfg]
+    sps = P.fn(ENTRY)
+    # the writer chain: encode_sps_av1 plus whichever functions call the member-by-member serialiser (a refactoring may move
+    # the serialisation out of encode_sps_av1 and leave a copy of the stored bytes there)
+    wroots = [sps] + [g for g in P.fns if g.lib == 'Encoder' and not g.nocfg and any(True for _ in g.calls('write_sequence_header'))]
+    chain = [g for g in P.reachable_from(wroots) if g.lib == 'Encoder' and not g.nocfg]
     HDR_RECS = ('SeqHeader', 'OrderHintInfo', 'EbColorConfig', 'EbTimingInfo', 'DecoderModelInfo', 'EbAv1OperatingPoint')
     read = set()
     for g in chain:
@@ -303,6 +356,59 @@ def run(P, rep, tier):
                '(svt_av1_enc_stream_header before the first picture, an earlier key frame) differs from one written after it'
                % (fn, ', '.join(sorted(fl.split('.', 1)[1] for fl, _ in lst))))
     rep.floor('C02.SPSSTATE', 15)
+
+    # ---------------- APIEFFECT: svt_av1_enc_stream_header may be called at any time, also while pictures are in flight.  What it
+    # writes must stay in objects of its own (its output buffer, its local bit-stream writer) -- apart from the effects the
+    # in-band path has itself when it writes a header (the re-derived level / tier members).  A store to a member of a session
+    # object that the packetization path reads lets a call from the application change what later key frames carry.
+    inband = set(g for g in P.reachable_from([pk]) if g.lib == 'Encoder' and not g.nocfg)
+    inread = set()
+    for g in inband:
+        for ev in g.events():
+            e = ev.get('e')
+            if e is not None:
+                inread |= {x[1] for x in subexprs(e) if x[0] == 'm'}
+    from engine.own import alloc_sites as _alloc_sites
+    nae = 0
+    for g in [h for h in P.reachable_from([api]) if h.lib == 'Encoder' and not h.nocfg]:
+        if g in inband:
+            nae += 1
+            rep.ob('C02.APIEFFECT', 'shared-with-in-band:%s' % g.name, True, g.loc(), 'also run by the packetization path: same effect as an in-band header write')
+            continue
+        ownloc = {d['n'] for d in g.events(('decl',)) if '*' not in d.get('t', '')}
+        ownloc |= {strip(t)[1] for ev, lf, kind, lvl, mac, t in _alloc_sites(g) if strip(t)[0] == 'v'}
+        for d in g.events(('decl', 'st')):
+            e = d.get('e')
+            if e is None:
+                continue
+            if d['k'] == 'decl':
+                n, rhs = d['n'], strip(e)
+            elif e[0] == 'a' and e[1] == '=' and strip(e[2])[0] == 'v':
+                n, rhs = strip(e[2])[1], strip(e[3])
+            else:
+                continue
+            while rhs is not None and rhs[0] == 'k':
+                rhs = strip(rhs[-1])
+            if rhs is not None and rhs[0] == 'c' and callee_name(rhs) in ('malloc', 'calloc'):
+                ownloc.add(n)
+        for ev in g.events(('st',)):
+            e = ev['e']
+            if e[0] not in ('a', 'u'):
+                continue
+            t = strip(e[2])
+            lf = last_field(t)
+            if not lf:
+                continue
+            r = root_of(t)
+            mine = r is not None and r[2] == 'l' and r[1] in ownloc
+            # ((OutputBitstreamUnit *)bitstream.output_bitstream_ptr)->...: reached through a member of an own object that was
+            # pointed at another own object in this function
+            nae += 1
+            ok = mine or lf not in inread
+            rep.ob('C02.APIEFFECT', '%s/%s' % (g.name, lf), ok, g.loc(ev),
+                   ('%s: %s' % (pstr(t)[:60], 'object created by this call' if mine else 'not read by the packetization path')) if ok else
+                   ('%s, reachable from svt_av1_enc_stream_header only (not part of the in-band header path), stores %s (%s), which the packetization path reads: a call made by the application while pictures are in flight changes what the following key frames carry' % (g.name, lf, pstr(t)[:60])))
+    rep.floor('C02.APIEFFECT', 10)
 
     # ---------------- PICTYPE: the packet reports EB_AV1_KEY_PICTURE exactly for key frames.  Whatever selects the key-picture
     # value must be the predicate that makes the frame a key frame (idr_flag / frame_type), not a weaker one (slice type).
